@@ -12,18 +12,34 @@ type Outcome struct {
 	normal    *State
 	breaks    []*State
 	continues []*State
+	alts      []*State // unmerged normal continuations (loop N: paths separate)
 }
 
 func (c *FnCtx) execBlock(st *State, stmts []ast.Stmt) Outcome {
 	out := Outcome{}
 	cur := st
-	for _, s := range stmts {
+	for i, s := range stmts {
 		if cur == nil || cur.pc == "false" {
 			break
 		}
 		o := c.execStmt(cur, s)
 		out.breaks = append(out.breaks, o.breaks...)
 		out.continues = append(out.continues, o.continues...)
+		if len(o.alts) > 0 {
+			// the rest of the block once per exit path of the loop
+			var normals []*State
+			for _, a := range o.alts {
+				if a == nil || a.pc == "false" {
+					continue
+				}
+				ro := c.execBlock(a, stmts[i+1:])
+				out.breaks = append(out.breaks, ro.breaks...)
+				out.continues = append(out.continues, ro.continues...)
+				normals = append(normals, ro.normal)
+			}
+			out.normal = c.mergeStates(normals, "alts")
+			return out
+		}
 		cur = o.normal
 	}
 	out.normal = cur
@@ -973,6 +989,9 @@ func (c *FnCtx) loop(st *State, n int, spec *LoopSpec, node ast.Stmt, body ast.N
 		} else if auto == nil || !auto.noMeasure {
 			c.noMeasure = append(c.noMeasure, fmt.Sprintf("loop %d", n))
 		}
+	}
+	if spec.NoMerge {
+		return Outcome{alts: append([]*State{exit}, o.breaks...)}
 	}
 	return Outcome{normal: c.mergeStates(append([]*State{exit}, o.breaks...), fmt.Sprintf("x%d", n))}
 }
